@@ -46,7 +46,10 @@ def sameBits (progs : List (List Act)) (cfg : Cfg) : String :=
       | _ => '0'
     | _, _ => '0')
 
-def zCount (toks : List String) : Nat := (toks.filter fun t => t.startsWith "file:" && t.endsWith ":z").length
+/-- the two options objects shared by all operations of a line (0: `Factory` set, 1: `Factory` nil) after the run:
+`ro` = both are what they were at the start (nobody wrote them), `w` otherwise -/
+def optsBits (cfg : Cfg) : String :=
+  if cfg.sh.opts 0 == concSh0.opts 0 && cfg.sh.opts 1 == concSh0.opts 1 then "ro" else "w"
 
 def hConcurrent : Handler := fun r =>
   let args := if r.args.head? == some "fresh" then r.args.drop 1 else r.args
@@ -59,13 +62,22 @@ def hConcurrent : Handler := fun r =>
     match (stripPrefix? s "s").bind String.toNat?, progs? with
     | some seed, some progs =>
       match r.mode with
-      | .model => "same=" ++ sameBits progs (exec (initCfg progs concSh0) (concSchedule seed progs))
+      | .model =>
+        let cfg := exec (initCfg progs concSh0) (concSchedule seed progs)
+        "same=" ++ sameBits progs cfg ++ " opts=" ++ optsBits cfg
       | .spec => "n/a"
       | .prop =>
-        match stripPrefix? r.impl "same=" with
-        | some bits => if bits.length == progs.length && bits.toList.all (· == '1') then "ok" else "fail:interference"
-        | none => "fail:unparsable"
-      | .kf => if zCount toks ≥ 2 then "KF-C15-1" else "-"
+        -- the property on the implementation's answer: every operation's concurrent result is its solo result, and the
+        -- option values shared by the operations were only read (C15_non_interference, C15_options_never_written)
+        match r.impl.splitOn " " with
+        | [sm, op] =>
+          match stripPrefix? sm "same=", stripPrefix? op "opts=" with
+          | some bits, some ob =>
+            if !(bits.length == progs.length && bits.toList.all (· == '1')) then "fail:interference"
+            else if ob != "ro" then "fail:shared-options-written" else "ok"
+          | _, _ => "fail:unparsable"
+        | _ => "fail:unparsable"
+      | .kf => "-"   -- no open finding class (KF-C15-1 is repaired: mode z is an ordinary mix)
     | _, _ => if r.mode == .model then "bad-op" else if r.mode == .kf then "-" else "n/a"
   | _ => if r.mode == .model then "bad-op" else if r.mode == .kf then "-" else "n/a"
 
